@@ -605,12 +605,18 @@ func runRfc7798Form(donl bool, f []Tok) Outcome {
 		}
 		chkDonl(v.FirstUnit().DONL(), donl, tokInt(f[3]))
 		os := tokList(f[5])
+		if int(v.FirstUnit().NALUSize()) != len(tokBytes(f[4])) {
+			fail("first aggregation unit reports NALUSize %d for a unit of %d bytes", v.FirstUnit().NALUSize(), len(tokBytes(f[4])))
+		}
 		if !bytes.Equal(v.FirstUnit().NalUnit(), tokBytes(f[4])) || len(v.OtherUnits()) != len(os) {
 			fail("aggregation units decoded wrongly: %d other units, %d encoded", len(v.OtherUnits()), len(os))
 			break
 		}
 		for i, u := range v.OtherUnits() {
 			ol := tokList(os[i])
+			if int(u.NALUSize()) != len(tokBytes(ol[1])) {
+				fail("aggregation unit %d reports NALUSize %d for a unit of %d bytes", i+1, u.NALUSize(), len(tokBytes(ol[1])))
+			}
 			if !bytes.Equal(u.NalUnit(), tokBytes(ol[1])) || (u.DOND() != nil) != donl || (donl && int64(*u.DOND()) != tokInt(ol[0])) {
 				fail("aggregation unit %d decoded wrongly", i+1)
 			}
@@ -679,7 +685,14 @@ func init() {
 			return runH265Parse(tokInt(toks[0]) != 0, ps)
 		case 1403:
 			var o Outcome
-			o.Impl, o.Nontrivial = vNH(codecs.H265NALUHeader(tokInt(toks[0]))), true
+			h := codecs.H265NALUHeader(tokInt(toks[0]))
+			o.Impl, o.Nontrivial = vNH(h), true
+			// the derived predicates, against the type ranges of RFC 7798 1.1.4 / H.265 table 7-1
+			ty := int(tokInt(toks[0])>>9) & 63
+			if h.IsTypeVCLUnit() != (ty < 32) || h.IsAggregationPacket() != (ty == 48) || h.IsFragmentationUnit() != (ty == 49) || h.IsPACIPacket() != (ty == 50) {
+				o.Fail = fmt.Sprintf("payload header %#04x (type %d): IsTypeVCLUnit=%v IsAggregationPacket=%v IsFragmentationUnit=%v IsPACIPacket=%v",
+					tokInt(toks[0]), ty, h.IsTypeVCLUnit(), h.IsAggregationPacket(), h.IsFragmentationUnit(), h.IsPACIPacket())
+			}
 			return o
 		case 1404:
 			var o Outcome
